@@ -302,6 +302,15 @@ func vMswRun(t *testing.T) {
 			out.stat(what)
 			continue
 		} else {
+			// A SECOND BOUNDARY PASSES DURING THE PARK (every third case): the request was queued late in its second, the server
+			// clock moves on while the entry is still parked in the millisecond table; the deadline handed to the second wheel is
+			// counted from the START of the request all the same
+			j := 0
+			if i%3 == 1 {
+				v.tick()
+				j = 1
+				out.stat("second-boundary-during-park")
+			}
 			time.Sleep(time.Duration(park+70) * time.Millisecond)
 			// on a loaded machine the park goroutine may wake late: wait until the millisecond tables are empty (≤ 3 s more)
 			for w := 0; w < 300 && vMsPending(v.db); w++ {
@@ -330,8 +339,12 @@ func vMswRun(t *testing.T) {
 					}
 				}
 				obs = fmt.Sprintf("second:%d", d)
+				if d > start+int64(T/1000)+1 {
+					// queued during second `start`, ended by the sweep of second d: that is up to d+1-start seconds later, which must stay ≤ T + 2 s
+					out.monitor(px+":late:handed-over-deadline", fmt.Sprintf("%s with %d ms queued in second %d was handed to the second wheel with deadline %d (%d s of server time passed during the park): later than start + T + 2 s", what, T, start, d, j), replay)
+				}
 				// now the second wheel: tick until answered
-				k := 0
+				k := j
 				for ; k < T/1000+6; k++ {
 					v.tick()
 					if _, ok := final(); ok {
